@@ -247,6 +247,10 @@ func (k *Kernel) Release(id interface{}, _ string) {
 	k.mu.Unlock()
 }
 
+// Dead reports whether the controller has stopped (the run is over; goroutines still parked are
+// being ended).
+func (k *Kernel) Dead() bool { return k.isDead() }
+
 func (k *Kernel) isDead() bool {
 	k.mu.Lock()
 	defer k.mu.Unlock()
